@@ -139,7 +139,7 @@ ClausesX == {"Returns", "Raises",
              "DbValues", "DbMonotone", "DbClamped", "DbUnits",
              "ResizeShape", "ResizeCoords", "ResizeStepAttr", "ResizeValues",
              "AdjustAxis", "AdjustOldKept", "AdjustNewFill",
-             "StepValue", "RangeWidth", "AttrsSet", "DimFromArray"}
+             "StepValue", "RangeWidth", "AttrsSet", "DimFromArray", "WidthFill"}
 
 OptIs(o, x, exact) == IF IsNone(x) THEN IsNone(o) ELSE ~IsNone(o) /\ VIs(Some(o), Some(x), exact)
 SamePres(r) == r.dims_out = r.dims_in /\ r.coords_out = r.coords_in /\ r.other_out = r.other_in
@@ -241,6 +241,17 @@ HoldsDims(cl, c, r) ==
                                         /\ OptIs(r.stepattr, es, Dyadic(c.s) /\ (IsNone(es) \/ RDyadic(Some(es))))
               [] OTHER -> TRUE
 
+\* adjust_dim_width / extend_dim_width, fill_value: "the value to fill the extended region with" -- every added sample, in front
+\* and behind, holds it; the original block sits where C17 says (CropExtend!Offs).  c.fill is a rational.
+HoldsWFill(cl, c, r) ==
+    CASE cl = "Returns"   -> r.raised = ""
+      [] cl = "WidthFill" -> r.raised = "" =>
+            /\ Len(r.vals) = c.w
+            /\ \E off \in Offs(c.pos, c.w - c.n) : \A t \in 1..c.w :
+                  VIs(r.vals[t], IF t - off - 1 \in 0..(c.n - 1) THEN RInt(t - off) ELSE RNorm(c.fill), TRUE)
+      [] cl = "InputUntouched" -> Untouched(r)
+      [] OTHER -> TRUE
+
 HoldsX(cl, o) ==
     LET c == o.in  r == o.out IN
     CASE c.kind = "alg"    -> HoldsAlg(cl, c, r)
@@ -248,4 +259,5 @@ HoldsX(cl, o) ==
       [] c.kind = "resize" -> HoldsResize(cl, c, r)
       [] c.kind = "adjust" -> HoldsAdjust(cl, c, r)
       [] c.kind = "dims"   -> HoldsDims(cl, c, r)
+      [] c.kind = "wfill"  -> HoldsWFill(cl, c, r)
 =============================================================================
